@@ -403,7 +403,7 @@ func vhSSO(maxKids, kinds int, modes int) {
 }
 
 func VH_C01_sso()      { vhSSO(2, vhKidKinds, 2) }
-func VH_C01_sso_deep() { vhSSO(3, vhKidKinds, 2) }
+func VH_C01_sso_deep() { vhSSO(3, vhKidKinds, 1) }
 
 // VH_C02_store_rollover: a multi-step history on one long-lived SP. A genuine root-signed Response is
 // validated, then the configured certificate store is replaced by one that no longer holds the IdP
